@@ -1,6 +1,7 @@
 import Ekit.Props.C07
 import Ekit.Props.C07HW
 import Ekit.Props.C07Rev
+import Driver.Ev.BQSoundC07
 #print axioms c07_abq_inv
 #print axioms c07_abq_capacity
 #print axioms c07_abq_mutual_exclusion
@@ -39,3 +40,12 @@ import Ekit.Props.C07Rev
 #print axioms c07_lbq_ctx_err_only_if_ctx_ended
 #print axioms c07_abq_ctx_err_response_needs_ended_ctx
 #print axioms c07_lbq_ctx_err_response_needs_ended_ctx
+-- soundness of the synchronisation-event replayers (Driver/Ev/BQSound.lean, LBQSound.lean): what the driver accepts of a
+-- real execution IS a run of the model, so the observed call history is linearizable and the final state satisfies the invariants
+#print axioms Driver.Ev.ABQ.abq_sync_sound
+#print axioms Driver.Ev.ABQ.abq_replay_sound
+#print axioms Driver.Ev.ABQ.c07_abq_evtrace_linearizable
+#print axioms Driver.Ev.ABQ.c07_abq_evtrace_invariants
+#print axioms Driver.Ev.LBQ.lbq_sync_sound
+#print axioms Driver.Ev.LBQ.lbq_replay_sound
+#print axioms Driver.Ev.LBQ.c07_lbq_evtrace_linearizable
